@@ -3,7 +3,7 @@ from lib import core, propgen
 from harness.oracles import all as ALL
 
 ID = 'C04'
-UNITS = ['match_events', 'event_metrics', 'note_matching', 'transcription_scores', 'melody_metrics', 'multipitch_metrics', 'multipitch_resample', 'key_score', 'pattern_scores', 'alignment_scores', 'tempo_detection', 'beat_q', 'beat_ig', 'melody_resample']
+UNITS = ['match_events', 'event_metrics', 'note_matching', 'transcription_scores', 'melody_metrics', 'multipitch_metrics', 'multipitch_resample', 'key_score', 'pattern_scores', 'alignment_scores', 'tempo_detection', 'beat_q', 'beat_ig', 'melody_resample', 'beat_ig_num']
 TRANSLATORS = ['defaults', 'tables', 'scalarfuncs']
 NOT_COVERED = 'Partial: Goto and continuity are their own (procedural) definitions, tied by correspondence only; the Gaussian of Cemgil and the entropy of information gain are outside the exact model; default values are tied by the translator (defaults_as_documented).'
 ASSUMPTIONS = ['exact-arithmetic lattices for the correspondence (DESIGN.md section 2.1); NumPy/SciPy primitives as modelled per module']
